@@ -284,6 +284,7 @@ func runC07(c *Ctx) {
 	ruleAtomicRemove(c, "C07.5")
 	ruleInstalledAddrFresh(c, "C07.6")
 	ruleTimerOnLiveEntry(c, "C07.7")
+	ruleReportWithRemoval(c, "C07.8")
 }
 
 // allPathsTo: every path from the function entry to block `to` contains an instruction
@@ -695,5 +696,57 @@ func ruleTimerOnLiveEntry(c *Ctx, rule string) {
 				c.Bad(rule, fname(fn), op.typ+" reset", w.instrPos(in), fmt.Sprintf("the %s whose lifetime timer is restarted here can come from %v rather than from the table: a remembered entry may already have expired and been replaced — its re-armed expiry callback then removes the live entry by key, cutting short a %s that was refreshed in time", op.typ, bad, strings.ToLower(op.typ)))
 			}
 		})
+	}
+}
+
+// ruleReportWithRemoval (C07.8): the end of a permission / channel binding is one step. The
+// deleted-event and the removal from the table happen inside one hold of the table's write
+// lock, or the event follows the removal. If the application's handler runs first and without
+// the lock, a refresh arriving meanwhile still finds the dying entry, is answered with success,
+// and the entry is then removed all the same: the client believes in a binding that is gone
+// (and the re-armed timer of the removed entry later removes its successor).
+func ruleReportWithRemoval(c *Ctx, rule string) {
+	w := c.W
+	li := w.lockInfo()
+	c.Rule(rule, "expiry is one step: every call of OnPermissionDeleted / OnChannelDeleted is made with the write lock of its table held, or is dominated by the removal of the entry from that table", 2)
+	for _, k := range []struct{ name, table, lock string }{
+		{"OnPermissionDeleted", "permissions", "allocation.Allocation.permissionsLock"},
+		{"OnChannelDeleted", "channelBindings", "allocation.Allocation.channelBindingsLock"},
+	} {
+		tbl := w.Field("allocation", "Allocation", k.table)
+		for _, fn := range w.ModFns {
+			w.eachInstr(fn, func(in ssa.Instruction) {
+				call, ok := in.(*ssa.Call)
+				if !ok || call.Call.StaticCallee() != nil || call.Call.IsInvoke() {
+					return
+				}
+				_, f, isL := fieldLoad(call.Call.Value)
+				if !isL || f.Name() != k.name {
+					return
+				}
+				c.Anchor(rule, k.name)
+				held := li.mustAt(in)
+				isRemoval := func(i2 ssa.Instruction) bool {
+					if tableWrite(w, i2, tbl) {
+						return true
+					}
+					if dc, ok := i2.(*ssa.Call); ok {
+						if b, isB := dc.Call.Value.(*ssa.Builtin); isB && b.Name() == "delete" {
+							_, f2, isL2 := fieldLoad(dc.Call.Args[0])
+							return isL2 && f2 == tbl
+						}
+					}
+					return false
+				}
+				switch {
+				case holds(held, k.lock, true):
+					c.OK(rule, fname(fn), k.name, w.instrPos(in), "reported inside the hold of "+k.lock+" in which the entry is removed")
+				case w.domHit(in, isRemoval):
+					c.OK(rule, fname(fn), k.name, w.instrPos(in), "reported after the entry has been removed from "+k.table)
+				default:
+					c.Bad(rule, fname(fn), k.name, w.instrPos(in), "the deleted-event is reported before the entry is removed and without "+k.lock+" (held: {"+held.str()+"}): a refresh that arrives while the handler runs finds the dying entry, is answered with success, and the entry is removed all the same")
+				}
+			})
+		}
 	}
 }
